@@ -9,9 +9,9 @@
 namespace {
 
 enum Flavour { CO = 0, BL = 1, TRY = 2 };
-enum Release { DIS = 0, DTOR = 1, AWT = 2, MOVE = 3, POOL = 4 };
+enum Release { DIS = 0, DTOR = 1, AWT = 2, MOVE = 3, POOL = 4, ASSIGN = 5, SLOT = 6 };
 static const char *fl_names[] = {"co", "bl", "try"};
-static const char *rl_names[] = {"dis", "dtor", "awt", "move", "pool"};
+static const char *rl_names[] = {"dis", "dtor", "awt", "move", "pool", "assign", "slot"};
 
 constexpr int MAXK = 4;
 // scratch layout
@@ -23,6 +23,8 @@ struct Shared {
     int probe = 0;              // plain: broken exclusion is also a data race
     std::atomic<int> finished{0};  // contenders that are completely done (gives main a happens-before edge before teardown)
     std::unique_ptr<cocls::thread_pool> pool;  // release style 'pool': the next owner is resumed on a pool worker
+    cocls::mutex::ownership slot;  // release style 'slot': every owner keeps its ownership in this one shared place (a session
+                                   // object holding the lock across calls); only the current owner ever touches it
 };
 
 static void critical(Shared &sh, int id) {
@@ -73,6 +75,11 @@ static cocls::async<void> co_contender(Shared &sh, int id, int rel, int rounds) 
                 sh.pool->resume(sp);
                 break;
             }
+            case ASSIGN: own = cocls::mutex::ownership(); break;  // assigning over a held ownership gives the lock back
+            case SLOT:
+                sh.slot = std::move(own);
+                sh.slot.release();
+                break;
         }
     }
     vrt_scratch()[S_DONE]++;
@@ -100,6 +107,11 @@ static void contender_thread(Shared &sh, int id, int fl, int rel, int rounds) {
             else if (rel == POOL) {
                 cocls::suspend_point<void> sp = own.release();
                 sh.pool->resume(sp);
+            } else if (rel == ASSIGN)
+                own = cocls::mutex::ownership();
+            else if (rel == SLOT) {
+                sh.slot = std::move(own);
+                sh.slot.release();
             }
             // DTOR: destructor releases
         }
@@ -191,6 +203,22 @@ VRT_REGISTER(reg_mx) {
                 run_mx(2, fl, rel, 1);
             });
         }
+    // ownership objects: assignment over a held ownership, and one shared ownership slot used by every owner
+    for (int f0 = 0; f0 < 2; f0++)
+        for (int f1 = f0; f1 < 2; f1++)
+            for (int st = ASSIGN; st <= SLOT; st++)
+                for (int other = 0; other < 2; other++) {
+                    std::string name = std::string("mxown_") + fl_names[f0] + "-" + fl_names[f1] + "_" + rl_names[st] + "-" + (other ? "dis" : rl_names[st]);
+                    vrt::add(name, [=] {
+                        int fl[2] = {f0, f1}, rel[2] = {st, other ? DIS : st};
+                        run_mx(2, fl, rel, 1);
+                    });
+                }
+    for (int st = ASSIGN; st <= SLOT; st++)
+        vrt::add(std::string("mxown3_bl-bl-co_") + rl_names[st], [=] {
+            int fl[3] = {BL, BL, CO}, rel[3] = {st, st, st};
+            run_mx(3, fl, rel, 1);
+        });
     vrt::add("mxpool_co-co-co", [] {
         int fl[3] = {CO, CO, CO}, rel[3] = {POOL, DIS, POOL};
         run_mx(3, fl, rel, 1);
